@@ -51,12 +51,26 @@ ImplQ(b) == IF Len(b) = 0 THEN 0
             ELSE LET cp == CP(Len(b))
                      pq == IF cp = 0 THEN 0 ELSE GetQ(AncAt(b, cp - 1))
                  IN pq + (IF Justified(b) THEN 1 ELSE 0)
-ImplFindCP(target, f, h) ==
-  LET start == CP(Len(f))
-      cands == {k \in 0..(Len(h) \div E) : k*E >= start /\ k*E + E - 1 <= Len(h) /\ GetQ(AncAt(h, SP(k*E))) >= target}
-  IN IF cands = {} THEN NoBlock
-     ELSE LET k == CHOOSE k \in cands : \A j \in cands : k <= j
-          IN IF GetQ(AncAt(h, SP(k*E))) = target THEN AncAt(h, k*E) ELSE NoBlock
+\* bft.findCheckpointByQuality as it is: sort.Search (BINARY search) over the store points from the finalized block's
+\* height on, each read through getQuality.  With a hole left by F2 the qualities are no longer monotone and the binary
+\* search does not find "the first epoch >= target" - modelled as the code does it.
+\* (Q is the persisted-quality map to read: CommitBlock saves the block's own quality BEFORE it searches.)
+GetQIn(Q, x) == IF x \in DOMAIN Q THEN Q[x] ELSE 0
+RECURSIVE BSearch(_, _, _, _, _, _)
+BSearch(Q, lo, hi, h, start, target) ==
+  IF lo >= hi THEN lo
+  ELSE LET m == (lo + hi) \div 2 IN
+       IF GetQIn(Q, AncAt(h, SP(start + m * E))) >= target THEN BSearch(Q, lo, m, h, start, target)
+       ELSE BSearch(Q, m + 1, hi, h, start, target)
+ImplFindCPIn(Q, target, f, h) ==
+  LET start == Len(f)                                    \* finalized is a checkpoint (or genesis)
+      n == ((Len(h) - start) \div E) + 1
+  IN IF Len(h) < start \/ SP(start + (n - 1) * E) > Len(h) THEN NoBlock        \* head's epoch not concluded: error
+     ELSE LET num == BSearch(Q, 0, n, h, start, target) IN
+          IF num = n THEN NoBlock
+          ELSE IF GetQIn(Q, AncAt(h, SP(start + num * E))) # target THEN NoBlock
+          ELSE AncAt(h, start + num * E)
+ImplFindCP(target, f, h) == ImplFindCPIn(dQ, target, f, h)
 BetterBy(qa, a, qb, b) == \/ qa > qb
                           \/ qa = qb /\ (Score(a) > Score(b) \/ (Score(a) = Score(b) /\ IdLess(a, b)))
 ImplBetter(b, cur) == BetterBy(ImplQ(b), b, ImplQ(cur), cur)
@@ -121,7 +135,7 @@ WillFinalize(b, q) == Committed(b) /\ q > 1 /\ CP(Len(b)) > Len(mFin)
 WQ == /\ up /\ pc = "q"
       /\ LET q == ImplQ(Cur) IN
          /\ dQ' = (Cur :> q) @@ dQ
-         /\ pc' = IF WillFinalize(Cur, q) /\ ImplFindCP(q - 1, mFin, Cur) # NoBlock THEN "fin" ELSE "idle"
+         /\ pc' = IF WillFinalize(Cur, q) /\ ImplFindCPIn((Cur :> q) @@ dQ, q - 1, mFin, Cur) # NoBlock THEN "fin" ELSE "idle"
       /\ i' = IF pc' = "idle" THEN i + 1 ELSE i
       /\ UNCHANGED <<dState, dIdx, dBlk, dBest, dFin, dLogs, up, isBest, mFin, hist>>
 \* ... then the finalized key
